@@ -35,6 +35,19 @@ Theorem C20_draw :
 Proof. exact draw_complete. Qed.
 Print Assumptions C20_draw.
 
+(* the draw is a bijection between the indices below len and the members: each member is returned by
+   exactly one index - the one its hashmap entry stores - so random.choice (a uniform index) is a
+   uniform member; len is the cardinality of the plain set.  Holds in every state representing a
+   plain set, hence (C20_history_refines_plain_set) after every history. *)
+Theorem C20_draw_bijection :
+  forall s l, R s l ->
+    ds_len s = length l /\
+    (forall e, In e l -> exists i, i < ds_len s /\ ds_draw s i = Some e /\ lookup (hm s) e = Some i /\
+       forall j, ds_draw s j = Some e -> j = i) /\
+    (forall i j e, ds_draw s i = Some e -> ds_draw s j = Some e -> i = j).
+Proof. exact draw_bijection. Qed.
+Print Assumptions C20_draw_bijection.
+
 (* iteration lists each member exactly once *)
 Theorem C20_iter : forall s l, R s l -> Permutation (ds_iter s) l.
 Proof. exact iter_permutation. Qed.
